@@ -2,7 +2,10 @@
 
 Usage (sub-process, so that PYTHONHASHSEED can be varied):   python -m harness.dagrun <cases.json> <out.json>
 
-A case is {"names": [insertion order of the variables dict], "anc": {name: [direct ancestor names]}, "mode": "ctor"|"from_dict"}.
+A case is {"names": [insertion order of the variables dict], "anc": {name: [direct ancestor names]}, "mode": "ctor"|"from_dict"}
+or (extension 4) {"mode": "defs", "names": [...], "defs": {name: None | <function description>}} — `from_dict` on definitions whose
+functions have real python signatures of every kind / are NamedInputFunction's (see `make_callable`) — or
+{"mode": "ctor_keys", "var_names": [keys of `variables`], "names": [keys of `direct_ancestors`], "anc": {...}}.
   ctor      -> VariablesDAG(variables, direct_ancestors={n: frozenset(...)})  with plain DataVariable / LinkedVariable objects
   from_dict -> VariablesDAG.from_dict({...})  where every non-root is LinkedVariable(<function with keyword-only parameters>)
                (a root is a DataVariable); the ancestors are then inferred by the real `get_ancestors_names`.
@@ -27,6 +30,10 @@ def classify(e: Exception):
         bucket = "ValueError"
     else:
         return type(e).__name__, 99
+    if bucket == "ValueError" and "Inconsistent nodes" in msg:
+        return bucket, 7
+    if type(e).__name__ == "LeaspyModelInputError" and "keyword-only" in msg:
+        return bucket, 8
     if bucket == "LeaspyInputError" and re.search(r"unknown", msg):
         return bucket, 1
     if bucket == "LeaspyInputError" and re.search(r"self", msg):
@@ -46,10 +53,98 @@ def make_fn(params):
     return eval("lambda *, " + ", ".join(params) + ": 0")  # noqa: S307 - names are identifiers checked above
 
 
-def build_one(case):
+def sig_source(sig):
+    """Parameter list (python source) of a signature given as [[name, kind, has_default], ...] in python's order."""
+    parts, slash_done, star_done = [], False, False
+    kinds = [k for _, k, _ in sig]
+    for i, (n, k, d) in enumerate(sig):
+        if not n.isidentifier():
+            raise ValueError(f"not an identifier: {n!r}")
+        if k != "POSITIONAL_ONLY" and "POSITIONAL_ONLY" in kinds[:i] and not slash_done:
+            parts.append("/")
+            slash_done = True
+        if k == "VAR_POSITIONAL":
+            parts.append("*" + n)
+            star_done = True
+        elif k == "KEYWORD_ONLY":
+            if not star_done:
+                parts.append("*")
+                star_done = True
+            parts.append(n + ("=0" if d else ""))
+        elif k == "VAR_KEYWORD":
+            parts.append("**" + n)
+        else:
+            parts.append(n + ("=0" if d else ""))
+    if "POSITIONAL_ONLY" in kinds and not slash_done:
+        parts.append("/")
+    return ", ".join(parts)
+
+
+def seen_signature(f):
+    """What python's own `inspect.signature` (standard library, NOT leaspy) reports of a callable."""
+    import inspect
+    try:
+        return [[n, p.kind.name, p.default is not p.empty] for n, p in inspect.signature(f).parameters.items()]
+    except (TypeError, ValueError):
+        return None
+
+
+def make_callable(desc):
+    """Build the function a description denotes.  Forms:
+      def / lambda : {"sig": [[name, kind, has_default], ...]}        a real python function with that signature
+      partial      : {"base": <def|lambda>, "npos": k, "kw": [names]}  functools.partial(base, *k values, **{name: 0})
+      named        : {"inner": <def|lambda>, "params": [...]}          NamedInputFunction(f=inner, parameters=tuple(params))
+      bound        : {"params": [...], "kws": [...]}                   NamedInputFunction.bound_to(variadic f)( *params, **kws)
+      factory      : {"factory": "Sum"|..., "params": [...]}           leaspy.utils.functional.<factory>( *params)
+      then         : {"base": <named|bound|factory|then>, "outer": <def|lambda>, "g_kws": [...]}   base.then(outer, **g_kws)"""
+    import functools
+    form = desc["form"]
+    if form == "def":
+        ns = {}
+        exec("def fn(" + sig_source(desc["sig"]) + "):\n    return 0\n", ns)  # noqa: S102 - identifiers checked by sig_source
+        return ns["fn"]
+    if form == "lambda":
+        return eval("lambda " + sig_source(desc["sig"]) + ": 0")  # noqa: S307
+    if form == "partial":
+        return functools.partial(make_callable(desc["base"]), *([0] * desc.get("npos", 0)), **{k: 0 for k in desc.get("kw", [])})
+    from leaspy.utils import functional as F
+    from leaspy.utils.functional import NamedInputFunction
+    if form == "named":
+        return NamedInputFunction(f=make_callable(desc["inner"]), parameters=tuple(desc["params"]))
+    if form == "bound":
+        def variadic(*a, **k):
+            return 0
+        return NamedInputFunction.bound_to(variadic)(*desc["params"], **{k: 0 for k in desc.get("kws", [])})
+    if form == "factory":
+        return getattr(F, desc["factory"])(*desc["params"])
+    if form == "then":
+        return make_callable(desc["base"]).then(make_callable(desc["outer"]), **{k: 0 for k in desc.get("g_kws", [])})
+    raise ValueError(f"unknown form {form}")
+
+
+def build_defs(case, info):
+    """`from_dict` on real definitions; `info` receives what python reports of the plain functions and, once the variables
+    exist, the ancestors each one declares."""
     from leaspy.variables.dag import VariablesDAG
     from leaspy.variables.specs import DataVariable, LinkedVariable
-    names, anc, mode = case["names"], case["anc"], case.get("mode", "ctor")
+    fns = {n: (make_callable(d) if d is not None else None) for n, d in case["defs"].items()}
+    info["sigs"] = {n: (seen_signature(f) if f is not None and case["defs"][n]["form"] in ("def", "lambda", "partial") else None)
+                    for n, f in fns.items()}
+    variables = {n: (LinkedVariable(fns[n]) if fns[n] is not None else DataVariable()) for n in case["names"]}
+    info["parents"] = {n: sorted(v.get_ancestors_names()) for n, v in variables.items()}
+    return VariablesDAG.from_dict(variables)
+
+
+def build_one(case, info=None):
+    from leaspy.variables.dag import VariablesDAG
+    from leaspy.variables.specs import DataVariable, LinkedVariable
+    mode = case.get("mode", "ctor")
+    if mode == "defs":
+        return build_defs(case, info if info is not None else {})
+    names, anc = case["names"], case["anc"]
+    if mode == "ctor_keys":
+        variables = {n: (LinkedVariable(lambda *, p_: 0) if anc.get(n) else DataVariable()) for n in case["var_names"]}
+        return VariablesDAG(variables, direct_ancestors={n: frozenset(anc[n]) for n in names})
     if mode == "from_dict":
         variables = {n: (LinkedVariable(make_fn(anc[n])) if anc[n] else DataVariable()) for n in names}
         return VariablesDAG.from_dict(variables)
@@ -58,12 +153,16 @@ def build_one(case):
 
 
 def observe(case):
+    info = {}
     try:
-        d = build_one(case)
+        d = build_one(case, info)
     except Exception as e:  # the refusal is the observation
         b, c = classify(e)
-        return {"err": [b, c, str(e)[:200]]}
+        return dict(info, err=[b, c, str(e)[:200]])
+    if case.get("mode") == "defs":
+        info["dag_parents"] = {n: sorted(v) for n, v in d.direct_ancestors.items()}
     return {
+        **info,
         "order": list(d.sorted_variables_names),
         "dchildren": {n: sorted(d.direct_children[n]) for n in d.direct_children},
         "children": [[n, list(v)] for n, v in d.sorted_children.items()],
